@@ -9,6 +9,7 @@
 use vstd::prelude::*;
 use std::fs::File;
 use std::path::{Path, PathBuf};
+use std::collections::HashMap;
 verus! {
 //@include _prelude.rs
 //@include _file_model.rs
@@ -151,31 +152,33 @@ impl Pager {
 
 //@extract nervusdb-storage/src/pager.rs Pager::ensure_allocated ret r
 //@| requires old(self).wf()
-//@| ensures frame_ok(*old(self), *final(self), Set::empty()),
+//@| ensures frame_ok(*old(self), *final(self), ISet::<int>::empty()),
 //@|     r is Ok ==> 2 <= page_id.0 < 65536,
 //@|     2 <= page_id.0 < 65536 ==> final(self).alloc(page_id.0 as int),
-//@|     forall|q: int| q != page_id.0 ==> final(self).alloc(q) == old(self).alloc(q),
+//@|     forall|q: int| 0 <= q < 65536 && q != page_id.0 ==> #[trigger] final(self).bitmap.bit(q) == old(self).bitmap.bit(q),
 //@|     forall|i: int| 16384 <= i < old(self).bytes().len() ==> #[trigger] final(self).bytes()[i] == old(self).bytes()[i],
 //@|     r is Ok ==> final(self).bytes().len() >= (page_id.0 + 1) * 8192,
+//@|     2 <= page_id.0 < 65536 ==> final(self).next() == (if old(self).next() > page_id.0 { old(self).next() } else { page_id.0 + 1 }),
+//@|     !(2 <= page_id.0 < 65536) ==> final(self).next() == old(self).next(),
 //@prewrite "self.file.metadata()?.len()" => "vfile_len(&self.file)?"
 //@prewrite "self.file.set_len(required_bytes)?;" => "vfile_set_len(&mut self.file, required_bytes)?;"
 //@end
 
 //@extract nervusdb-storage/src/pager.rs Pager::allocate_page ret r
 //@| requires old(self).wf()
-//@| ensures frame_ok(*old(self), *final(self), Set::empty()),
+//@| ensures frame_ok(*old(self), *final(self), ISet::<int>::empty()),
 //@|     forall|i: int| 16384 <= i < old(self).bytes().len() ==> #[trigger] final(self).bytes()[i] == old(self).bytes()[i],
 //@|     r is Ok ==> 2 <= r->Ok_0.0 < 65536 && !old(self).alloc(r->Ok_0.0 as int) && final(self).alloc(r->Ok_0.0 as int)
-//@|         && (forall|q: int| q != r->Ok_0.0 ==> final(self).alloc(q) == old(self).alloc(q))
+//@|         && (forall|q: int| 0 <= q < 65536 && q != r->Ok_0.0 ==> #[trigger] final(self).bitmap.bit(q) == old(self).bitmap.bit(q))
 //@|         && final(self).bytes().len() >= (r->Ok_0.0 + 1) * 8192,
 //@end
 
 //@extract nervusdb-storage/src/pager.rs Pager::free_page ret r
 //@| requires old(self).wf()
-//@| ensures final(self).wf(),
+//@| ensures final(self).wf(), final(self).next() == old(self).next(),
 //@|     final(self).bytes().len() == old(self).bytes().len(),
 //@|     forall|i: int| 16384 <= i < old(self).bytes().len() ==> #[trigger] final(self).bytes()[i] == old(self).bytes()[i],
-//@|     forall|q: int| q != page_id.0 ==> final(self).alloc(q) == old(self).alloc(q),
+//@|     forall|q: int| 0 <= q < 65536 && q != page_id.0 ==> #[trigger] final(self).bitmap.bit(q) == old(self).bitmap.bit(q),
 //@|     r is Ok ==> 2 <= page_id.0 < 65536 && old(self).alloc(page_id.0 as int) && !final(self).alloc(page_id.0 as int),
 //@|     !(2 <= page_id.0 < 65536 && old(self).alloc(page_id.0 as int)) ==> r is Err && final(self).alloc(page_id.0 as int) == old(self).alloc(page_id.0 as int),
 //@end
@@ -187,7 +190,7 @@ impl Pager {
 
 //@extract nervusdb-storage/src/pager.rs Pager::write_page ret r
 //@| requires old(self).wf()
-//@| ensures frame_ok(*old(self), *final(self), set![page_id.0 as int]),
+//@| ensures frame_ok(*old(self), *final(self), ISet::<int>::empty().insert(page_id.0 as int)),
 //@|     final(self).meta == old(self).meta, final(self).bitmap == old(self).bitmap,
 //@|     r is Ok ==> 2 <= page_id.0 < 65536 && old(self).alloc(page_id.0 as int) && final(self).bytes().len() >= (page_id.0 + 1) * 8192
 //@|         && final(self).bytes().subrange(page_id.0 * 8192, page_id.0 * 8192 + 8192) == page@,
@@ -205,7 +208,215 @@ impl Pager {
 //@| ensures r == (if self.meta.index_catalog_root == 0 { None } else { Some(PageId(self.meta.index_catalog_root)) })
 //@end
 
+//@extract nervusdb-storage/src/pager.rs Pager::allocate_run ret r
+//@| requires old(self).wf()
+//@| ensures frame_ok(*old(self), *final(self), ISet::<int>::empty()),
+//@|     forall|i: int| 16384 <= i < old(self).bytes().len() ==> #[trigger] final(self).bytes()[i] == old(self).bytes()[i],
+//@|     r is Ok ==> r->Ok_0.0 == old(self).next() && old(self).next() + count <= 65536
+//@|         && final(self).next() == old(self).next() + count
+//@|         && (forall|q: int| old(self).next() <= q < old(self).next() + count ==> final(self).alloc(q))
+//@|         && (forall|q: int| 0 <= q < 65536 && !(old(self).next() <= q < old(self).next() + count) ==> #[trigger] final(self).bitmap.bit(q) == old(self).bitmap.bit(q)),
+//@loop 1
+//@| invariant old(self).wf(), self.wf(), first == old(self).next(), end == first + count, end <= 65536, first <= id <= end,
+//@|     self.next() == id, frame_ok(*old(self), *self, ISet::<int>::empty()),
+//@|     forall|i: int| 16384 <= i < old(self).bytes().len() ==> #[trigger] self.bytes()[i] == old(self).bytes()[i],
+//@|     forall|q: int| first <= q < id ==> 0 <= q < 65536 && #[trigger] self.bitmap.bit(q),
+//@|     forall|q: int| 0 <= q < 65536 && !(first <= q < id) ==> #[trigger] self.bitmap.bit(q) == old(self).bitmap.bit(q),
+//@| decreases end - id
+//@end
+
+//@extract nervusdb-storage/src/pager.rs Pager::is_page_allocated ret r
+//@| ensures r == (2 <= page_id.0 < 65536 && self.alloc(page_id.0 as int))
+//@end
+
+//@extract nervusdb-storage/src/pager.rs Pager::set_i2e_start_page ret r
+//@| requires old(self).wf()
+//@| ensures frame_ok(*old(self), *final(self), ISet::<int>::empty()), final(self).bitmap == old(self).bitmap, final(self).next() == old(self).next(),
+//@|     forall|i: int| 16384 <= i < old(self).bytes().len() ==> #[trigger] final(self).bytes()[i] == old(self).bytes()[i],
+//@end
+//@extract nervusdb-storage/src/pager.rs Pager::set_i2e_len ret r
+//@| requires old(self).wf()
+//@| ensures frame_ok(*old(self), *final(self), ISet::<int>::empty()), final(self).bitmap == old(self).bitmap, final(self).next() == old(self).next(),
+//@|     forall|i: int| 16384 <= i < old(self).bytes().len() ==> #[trigger] final(self).bytes()[i] == old(self).bytes()[i],
+//@end
+//@extract nervusdb-storage/src/pager.rs Pager::set_next_internal_id ret r
+//@| requires old(self).wf()
+//@| ensures frame_ok(*old(self), *final(self), ISet::<int>::empty()), final(self).bitmap == old(self).bitmap, final(self).next() == old(self).next(),
+//@|     forall|i: int| 16384 <= i < old(self).bytes().len() ==> #[trigger] final(self).bytes()[i] == old(self).bytes()[i],
+//@end
+//@extract nervusdb-storage/src/pager.rs Pager::set_index_catalog_root ret r
+//@| requires old(self).wf()
+//@| ensures frame_ok(*old(self), *final(self), ISet::<int>::empty()), final(self).bitmap == old(self).bitmap, final(self).next() == old(self).next(),
+//@|     forall|i: int| 16384 <= i < old(self).bytes().len() ==> #[trigger] final(self).bytes()[i] == old(self).bytes()[i],
+//@end
+
 } // impl Pager
+
+// ================================================================== structure side (clients of the allocator)
+//@trusted v_fill_prefix: `page[..n].copy_from_slice(src)` overwrites the first n bytes of the local page buffer with src (std panics unless src.len() == n: precondition); no pager state involved
+#[verifier::external_body]
+pub fn v_fill_prefix(page: &mut [u8; PAGE_SIZE], n: usize, src: &[u8])
+    requires n <= 8192, src@.len() == n
+    ensures final(page)@ == src@ + old(page)@.skip(n as int)
+{ page[..n].copy_from_slice(src) }
+
+//@extract nervusdb-storage/src/csr.rs write_blob_pages ret r
+//@| requires old(pager).wf()
+//@| ensures frame_ok(*old(pager), *final(pager), ISet::<int>::empty()),
+//@|     r is Ok ==> forall|k: int| 0 <= k < r->Ok_0@.len() ==> 2 <= #[trigger] r->Ok_0@[k] < 65536
+//@|         && !old(pager).alloc(r->Ok_0@[k] as int) && final(pager).alloc(r->Ok_0@[k] as int),
+//@prewrite "let n = (blob.len() - pos).min(PAGE_SIZE);" => "let n = v_usize_min(blob.len() - pos, PAGE_SIZE);"
+//@prewrite "page[..n].copy_from_slice(&blob[pos..pos + n]);" => "v_fill_prefix(&mut page, n, &blob[pos..pos + n]);"
+//@prewrite "let mut pos = 0;" => "let mut pos: usize = 0;"
+//@loop 1
+//@| invariant old(pager).wf(), frame_ok(*old(pager), *pager, ISet::<int>::empty()), pos <= blob@.len(),
+//@|     forall|k: int| 0 <= k < pages@.len() ==> 2 <= #[trigger] pages@[k] < 65536 && !old(pager).alloc(pages@[k] as int) && pager.alloc(pages@[k] as int),
+//@| decreases blob@.len() - pos
+//@end
+
+//@item nervusdb-storage/src/index/btree.rs struct BTree
+//@trusted v_init_leaf: `Page::new(&mut buf).init_leaf()` only fills the local page buffer (what it writes is the subject of unit c26_page); no pager state involved
+#[verifier::external_body]
+pub fn v_init_leaf(buf: &mut [u8; PAGE_SIZE]) { unimplemented!() }
+
+impl BTree {
+//@extract nervusdb-storage/src/index/btree.rs BTree::create ret r
+//@| requires old(pager).wf()
+//@| ensures frame_ok(*old(pager), *final(pager), ISet::<int>::empty()),
+//@|     r is Ok ==> 2 <= r->Ok_0.root.0 < 65536 && !old(pager).alloc(r->Ok_0.root.0 as int) && final(pager).alloc(r->Ok_0.root.0 as int),
+//@prewrite "Page::new(&mut buf).init_leaf();" => "v_init_leaf(&mut buf);"
+//@end
+}
+
+//@item nervusdb-storage/src/idmap.rs type ExternalId
+//@item nervusdb-storage/src/idmap.rs type LabelId
+//@item nervusdb-storage/src/idmap.rs const I2E_RECORD_SIZE
+//@item nervusdb-storage/src/idmap.rs const I2E_RECORDS_PER_PAGE
+//@item nervusdb-storage/src/idmap.rs struct I2eRecord keep-derive
+
+impl I2eRecord {
+    //@trusted I2eRecord::encode: returns the 16-byte image of a node record (its layout is not part of the frame argument)
+    #[verifier::external_body]
+    pub fn encode(self) -> (r: [u8; I2E_RECORD_SIZE]) { unimplemented!() }
+    //@trusted I2eRecord::decode: parses a 16-byte node record (its layout is not part of the frame argument)
+    #[verifier::external_body]
+    pub fn decode(bytes: &[u8; I2E_RECORD_SIZE]) -> (r: Self) { unimplemented!() }
+}
+
+/// pages the node table owns once it holds `len` records starting at page `start` (the start page is
+/// the table's own from the moment it is recorded in the meta page, even while the table is empty)
+pub open spec fn i2e_own(start: int, len: int) -> ISet<int> {
+    ISet::new(|q: int| start <= q < start + (if len <= 0 { 1 } else { (len + 511) / 512 }))
+}
+
+//@extract nervusdb-storage/src/idmap.rs i2e_location ret r
+//@| requires start.0 < 65536
+//@| ensures r is Ok, r->Ok_0.0.0 == start.0 + internal_id_u64 / 512, r->Ok_0.1 == (internal_id_u64 % 512) * 16,
+//@|     r->Ok_0.1 + 16 <= 8192,
+//@end
+
+//@trusted v_array_copy_at: `page[off..off + 16].copy_from_slice(&rec)` overwrites 16 bytes of the local page buffer at off (std panics unless off + 16 <= 8192: precondition) and leaves the rest of the buffer as it was
+#[verifier::external_body]
+pub fn v_array_copy_at(page: &mut [u8; PAGE_SIZE], off: usize, src: &[u8; I2E_RECORD_SIZE])
+    requires off + 16 <= 8192
+    ensures final(page)@ == old(page)@.take(off as int) + src@ + old(page)@.skip(off + 16)
+{ page[off..off + I2E_RECORD_SIZE].copy_from_slice(src) }
+
+//@extract nervusdb-storage/src/idmap.rs read_i2e_record ret r
+//@| requires old(pager).wf(), start.0 < 65536
+//@| ensures *final(pager) == *old(pager),
+//@end
+
+// C18.client.frame.write_i2e_record — THE PROPERTY for the node table, every id: writing record `id`
+// of a table that holds `id` records (dense ids: the caller checks internal_id == i2e_len) changes no
+// page that was allocated before the call other than the table's own pages.
+//@extract nervusdb-storage/src/idmap.rs write_i2e_record ret r
+//@| requires old(pager).wf(), 2 <= start.0 < 65536,
+//@|     // the caller (apply_create_node_multi_label, via make_room_for_next_record) must have made room: a record that
+//@|     // opens a new page finds that page free
+//@|     internal_id_u64 > 0 && internal_id_u64 % 512 == 0 ==> !old(pager).alloc(start.0 + internal_id_u64 / 512),
+//@| ensures frame_ok(*old(pager), *final(pager), i2e_own(start.0 as int, internal_id_u64 as int)),
+//@prewrite "page[offset..offset + I2E_RECORD_SIZE].copy_from_slice(&encoded);" => "v_array_copy_at(&mut page, offset, &encoded);"
+//@end
+
+//@item nervusdb-storage/src/idmap.rs type InternalNodeId
+//@item nervusdb-storage/src/idmap.rs struct IdMap
+
+impl IdMap {
+// C18.client.frame.make_room — before a record that opens a new page is written, the page it will
+// take is free (the table is moved to a fresh contiguous run if the page after it is taken).
+//@extract nervusdb-storage/src/idmap.rs IdMap::make_room_for_next_record ret r
+//@| requires old(pager).wf(), 2 <= start.0 < 65536,
+//@| ensures frame_ok(*old(pager), *final(pager), i2e_own(start.0 as int, old(self).i2e_len as int)),
+//@|     final(self).i2e_len == old(self).i2e_len,
+//@|     final(self).i2e_start == old(self).i2e_start || (final(self).i2e_start is Some && 2 <= final(self).i2e_start->Some_0.0 < 65536),
+//@|     r is Ok ==> 2 <= r->Ok_0.0 < 65536
+//@|         // room: the page a new-page record will take is free
+//@|         && (old(self).i2e_len > 0 && old(self).i2e_len % 512 == 0 ==> !final(pager).alloc(r->Ok_0.0 + old(self).i2e_len / 512))
+//@|         // the table either stayed where it was or now lives in pages that were free before the call
+//@|         && (r->Ok_0.0 == start.0 || forall|q: int| i2e_own(r->Ok_0.0 as int, old(self).i2e_len as int).contains(q) ==> !(0 <= q < 65536 && #[trigger] old(pager).bitmap.bit(q))),
+//@prewrite "let mut i = 0;" => "let mut i: u64 = 0;"
+//@loop 1
+//@| invariant old(pager).wf(), pager.wf(), 2 <= start.0 < 65536, len > 0, len % 512 == 0, pages == len / 512, i <= pages,
+//@|     len == old(self).i2e_len, *self == *old(self),
+//@|     new_start.0 >= 2, new_start.0 + pages <= 65536, pager.next() == new_start.0 + pages,
+//@|     forall|q: int| new_start.0 <= q < new_start.0 + pages ==> !(0 <= q < 65536 && #[trigger] old(pager).bitmap.bit(q)),
+//@|     frame_ok(*old(pager), *pager, ISet::<int>::empty()),
+//@| decreases pages - i
+//@loop 2
+//@| invariant old(pager).wf(), pager.wf(), 2 <= start.0 < 65536, len > 0, len % 512 == 0, pages == len / 512, i <= pages,
+//@|     len == old(self).i2e_len, self.i2e_len == old(self).i2e_len, self.i2e_start == Some(new_start),
+//@|     new_start.0 >= 2, new_start.0 + pages <= 65536, pager.next() == new_start.0 + pages,
+//@|     forall|q: int| new_start.0 <= q < new_start.0 + pages ==> !(0 <= q < 65536 && #[trigger] old(pager).bitmap.bit(q)),
+//@|     frame_ok(*old(pager), *pager, i2e_own(start.0 as int, len as int)),
+//@| decreases pages - i
+//@proof before 1 "pager.free_page(PageId::new(start.as_u64() + i))?;"
+//@| assert((len + 511) / 512 == pages);
+//@| assert(i2e_own(start.0 as int, len as int).contains(start.0 + i));
+//@end
+}
+
+//@trusted v_sort_dedup: `labels.sort_unstable(); labels.dedup();` only reorders / shrinks the local label vector; no pager state involved
+#[verifier::external_body]
+pub fn v_sort_dedup(labels: &mut Vec<LabelId>) { labels.sort_unstable(); labels.dedup(); }
+//@trusted v_first_or_zero: `labels.first().copied().unwrap_or(0)` reads the local label vector; no pager state involved
+#[verifier::external_body]
+pub fn v_first_or_zero(labels: &Vec<LabelId>) -> (r: LabelId) { labels.first().copied().unwrap_or(0) }
+//@trusted v_e2i_contains: HashMap::contains_key on the in-memory external-id map; no pager state involved
+#[verifier::external_body]
+pub fn v_e2i_contains(m: &HashMap<ExternalId, InternalNodeId>, k: &ExternalId) -> (r: bool) { m.contains_key(k) }
+//@trusted v_e2i_insert: HashMap::insert on the in-memory external-id map; no pager state involved
+#[verifier::external_body]
+pub fn v_e2i_insert(m: &mut HashMap<ExternalId, InternalNodeId>, k: ExternalId, v: InternalNodeId) { m.insert(k, v); }
+
+//@trusted result_unwrap_or: Result::unwrap_or(d) returns the Ok payload, or d for an Err (std)
+pub assume_specification<T, E> [core::result::Result::<T, E>::unwrap_or] (res: core::result::Result<T, E>, d: T) -> (r: T)
+    where E: core::marker::Destruct, T: core::marker::Destruct,
+    ensures r == (match res { Ok(t) => t, Err(_) => d });
+
+impl IdMap {
+//@extract nervusdb-storage/src/idmap.rs IdMap::next_internal_id ret r
+//@| ensures r == (if self.i2e_len <= u32::MAX { self.i2e_len as u32 } else { u32::MAX })
+//@end
+
+// C18.client.frame.apply_create_node — THE PROPERTY for the node table, every id and every bitmap
+// state: creating a node changes no page that was allocated before the call other than the node
+// table's own pages (those holding its `i2e_len` records from `i2e_start`).
+//@extract nervusdb-storage/src/idmap.rs IdMap::apply_create_node_multi_label ret r
+//@| requires old(pager).wf(), old(self).i2e_len < u64::MAX,
+//@|     old(self).i2e_start is Some ==> 2 <= old(self).i2e_start->Some_0.0 < 65536,
+//@|     // representation invariant of IdMap: a table without a start page holds no records
+//@|     old(self).i2e_start is None ==> old(self).i2e_len == 0,
+//@| ensures final(self).i2e_start is None ==> final(self).i2e_len == 0,
+//@|     final(self).i2e_start is Some ==> 2 <= final(self).i2e_start->Some_0.0 < 65536,
+//@|     old(self).i2e_start is Some ==> frame_ok(*old(pager), *final(pager), i2e_own(old(self).i2e_start->Some_0.0 as int, old(self).i2e_len as int)),
+//@|     old(self).i2e_start is None ==> frame_ok(*old(pager), *final(pager), ISet::<int>::empty()),
+//@prewrite "self.e2i.contains_key(&external_id)" => "v_e2i_contains(&self.e2i, &external_id)"
+//@prewrite "labels.sort_unstable();\n        labels.dedup();" => "v_sort_dedup(&mut labels);"
+//@prewrite "labels.first().copied().unwrap_or(0)" => "v_first_or_zero(&labels)"
+//@prewrite "self.e2i.insert(external_id, internal_id);" => "v_e2i_insert(&mut self.e2i, external_id, internal_id);"
+//@end
+}
 
 } // verus!
 fn main() {}
